@@ -14,7 +14,9 @@ from parglare import SHIFT, REDUCE
 from parglare.exceptions import SRConflicts, RRConflicts
 
 RULE = ("case = operator grammar (1-4 binary operators with priority/associativity table) in which a generated subset "
-        "of operator productions and operator terminals is marked dynamic + filter kind {accept-all, reject all "
+        "of operator productions and operator terminals (and, when the grammar has the nullable prefix rule Sign: '~' | EMPTY, "
+        "its alternatives) is marked dynamic; a second family marks only the terminals or only the productions of a "
+        "single-level grammar without static priorities; + filter kind {accept-all, reject all "
         "reductions of one marked production, precedence-encoding}; all expressions with <= 3 operators and generated "
         "4-operator expressions (<= 9 tokens) are parsed by LR and GLR with a recording wrapper around the filter; "
         "non-trivial = parse in which the filter rejected >= 1 action or saw >= 3 marked decisions; distinct by "
